@@ -23,12 +23,14 @@ structure ItemSpec where
   id   : Nat
   outs : List Nat
   err  : Option Nat
+  perr : Option Nat := none   -- the item cannot be pickled: `Pickler` raises this (a CobaException) in the loader thread
 deriving Repr, DecidableEq
 
 structure Cfg where
   n     : Nat            -- n_processes (≥ 1)
   m     : Nat            -- maxtasksperchild (0 = unlimited)
   items : List ItemSpec
+  timeouts : Bool := false   -- does the code pass a finite timeout to `put` on the in_queue?  (the real code does not)
 deriving Repr
 
 /-- state of one worker lineage -/
@@ -58,6 +60,7 @@ structure State where
   abandoned : Bool
   dropIn    : List (Option ItemSpec)     -- ghost: elements thrown away (drained from in_queue / never loaded after stop)
   dropOut   : List (Option Nat)          -- ghost: elements drained from out_queue by the `finally` block
+  lexc      : Option Nat := none         -- the loader thread's exception (`ThreadLine.exception`), recorded by its callback
 deriving Repr, DecidableEq
 
 inductive Action where
@@ -77,6 +80,11 @@ def State.stopped (s : State) : Bool := s.main == .fin || s.main == .done
 def State.active (s : State) : Bool := s.main == .waitEvent || s.main == .consuming
 
 def cap (c : Cfg) : Nat := 2 * c.n
+
+/-- the pickling error of an element of the loader's stream (pills and picklable items have none) -/
+def perrOf : Option ItemSpec → Option Nat
+  | some x => x.perr
+  | none => none
 
 /-- may a worker that has taken `k` items pull another element?  (`Slice(None, m)`) -/
 def mayTake (c : Cfg) (k : Nat) : Bool := c.m == 0 || k < c.m
@@ -111,13 +119,17 @@ def enabled (c : Cfg) (s : State) : Action → Bool
 def step (_c : Cfg) (s : State) : Action → State
   | .loadTake =>
       match s.todo with
-      | x :: rest => { s with todo := rest, infl := some x }
+      | x :: rest =>
+          match perrOf x with
+          | some e => { s with todo := [], dropIn := s.dropIn ++ s.todo, lexc := some e }   -- Pickler raises: the loader thread ends
+          | none => { s with todo := rest, infl := some x }
       | [] => s
   | .loadPut =>
       match s.infl with
       | some x => { s with infl := none, inq := s.inq ++ [x] }
       | none => s
-  | .loadFinish => { s with lphase := true, todo := List.replicate s.nprocs none, dropIn := s.dropIn ++ s.todo }
+  | .loadFinish => { s with lphase := true, todo := List.replicate s.nprocs none, dropIn := s.dropIn ++ s.todo,
+                            excs := s.excs ++ s.lexc.toList }
   | .wBegin w => { s with ws := s.ws.set w (.run 0 [] none), event := true }
   | .wGet w =>
       match s.ws[w]?, s.inq with
@@ -169,7 +181,38 @@ inductive Reachable (c : Cfg) : State → Prop where
   | init : Reachable c (init c)
   | step {s a} : Reachable c s → enabled c s a = true → Reachable c (step c s a)
 
+/-! ### environment extension: a `put` with a finite timeout that gives up (`queue.Full`)
+
+The fake queue of the harness lets the scheduler decide, for a put with a timeout on a full queue, between waiting and
+raising `queue.Full`.  The real code passes no timeout, so this action is disabled for it (`Cfg.timeouts = false`); a
+`QueueSink` that swallows `Full` (breaks out of its loop) loses the element in flight and everything not yet loaded. -/
+
+inductive ActionT where
+  | base (a : Action)
+  | putTimeout
+deriving Repr, DecidableEq
+
+def enabledT (c : Cfg) (s : State) : ActionT → Bool
+  | .base a => enabled c s a
+  | .putTimeout => c.timeouts && s.infl.isSome && Nat.ble (cap c) s.inq.length
+
+def stepT (c : Cfg) (s : State) : ActionT → State
+  | .base a => step c s a
+  | .putTimeout =>
+      match s.infl with
+      | some x => { s with infl := none, todo := [], dropIn := s.dropIn ++ x :: s.todo }
+      | none => s
+
+def runTraceT (c : Cfg) : State → List ActionT → Option State
+  | s, [] => some s
+  | s, a :: as => if enabledT c s a then runTraceT c (stepT c s a) as else none
+
+inductive ReachableT (c : Cfg) : State → Prop where
+  | init : ReachableT c (init c)
+  | step {s a} : ReachableT c s → enabledT c s a = true → ReachableT c (stepT c s a)
+
 /-! ### what the caller observes -/
+
 
 inductive Outcome where
   | ok (outs : List Nat)            -- generator exhausted normally
@@ -183,10 +226,88 @@ def outcome (s : State) : Outcome :=
     | e :: _ => .raised e s.recv
     | [] => .ok s.recv
 
+/-! ### several calls on one Multiprocessor object
+
+`filter` (multi-process branch) begins with `self._n_procs = …; self._exceptions = []; self._poison = None;
+self._main_err = False; self._load_stopper = Stopper()` and creates fresh queues, lines and an event: every per-call
+field is re-assigned, whatever the previous call left on the object. -/
+
+/-- the fields a finished call leaves on the object -/
+structure Obj where
+  nprocs : Nat
+  excs   : List Nat
+deriving Repr, DecidableEq
+
+def State.obj (s : State) : Obj := { nprocs := s.nprocs, excs := s.excs }
+
+/-- first state of a call on a used object (the re-assignments of `filter`) -/
+def startCall (_o : Obj) (c : Cfg) : State := { init c with nprocs := c.n, excs := [] }
+
+/-- VARIANT (not the code): `_exceptions` initialised once in `__init__` and kept across calls -/
+def startCallStale (o : Obj) (c : Cfg) : State := { init c with excs := o.excs }
+
+/-- a history: the calls run one after the other, each from `start` of what the previous one left -/
+def runHistoryWith (start : Obj → Cfg → State) : Obj → List (Cfg × List Action) → Option (List Outcome)
+  | _, [] => some []
+  | o, (c, tr) :: rest =>
+    match runTrace c (start o c) tr with
+    | none => none
+    | some s =>
+      match runHistoryWith start s.obj rest with
+      | none => none
+      | some os => some (outcome s :: os)
+
+def runHistory := runHistoryWith startCall
+
+/-- the spec of a history: every call judged on its own, from `init` -/
+def singleCalls : List (Cfg × List Action) → Option (List Outcome)
+  | [] => some []
+  | (c, tr) :: rest =>
+    match runTrace c (init c) tr with
+    | none => none
+    | some s =>
+      match singleCalls rest with
+      | none => none
+      | some os => some (outcome s :: os)
+
+/-! ### CobaMultiprocessor around Multiprocessor
+
+`CobaMultiprocessor.filter`: `_, items = peek_first(items); if not items: return []`, then (marshalling of logger / cacher /
+store is C01's) `yield from Multiprocessor(filter, n, m).filter(items)` inside `try … except RuntimeError as e: coba_exit(str(e))`.
+A one-shot iterator is modelled by the list of what it will still yield; looking at its first element consumes it. -/
+
+/-- `peek_first(it)`: the first element (if any) and a stream that yields everything again (`chain([first], it)`) -/
+def peekFirst {α} (it : List α) : Option α × List α :=
+  match it with
+  | [] => (none, [])
+  | x :: rest => (some x, x :: rest)
+
+/-- what the original one-shot iterator still yields after `peek_first` looked at it -/
+def afterPeek {α} (it : List α) : List α := it.drop 1
+
+/-- the stream the wrapper hands to the inner Multiprocessor (the code uses the re-chained one) -/
+def wrapperInput {α} (it : List α) : List α := (peekFirst it).2
+
+/-- VARIANT (not the code): `if not peek_first(items)[1]: return []` and then the ORIGINAL iterator is passed on -/
+def wrapperInputStale {α} (it : List α) : List α := afterPeek it
+
+inductive WOutcome where
+  | ok (outs : List Nat)
+  | raised (e : Nat) (outs : List Nat)
+  | exit (e : Nat) (outs : List Nat)      -- `CobaExit(str(e))`, a BaseException
+  | closed (outs : List Nat)
+deriving Repr, DecidableEq
+
+/-- the wrapper's exception translation; `boot e` = "error `e` is the RuntimeError the code means to turn into a quiet exit" -/
+def wrapOutcome (boot : Nat → Bool) : Outcome → WOutcome
+  | .ok o => .ok o
+  | .closed o => .closed o
+  | .raised e o => if boot e then .exit e o else .raised e o
+
 /-! ### spec -/
 
 def allOuts (c : Cfg) : List Nat := c.items.flatMap (·.outs)
-def allErrs (c : Cfg) : List Nat := c.items.filterMap (·.err)
+def allErrs (c : Cfg) : List Nat := c.items.filterMap (·.err) ++ c.items.filterMap (·.perr)
 
 /-! ### termination measure (a plain natural number) -/
 
